@@ -935,7 +935,7 @@ def random_history(rng, length):
             pay, fill = gen.armor(gen.message_bits(rng, t))
             n = rng.choice([2, 2, 3, 4, 5, 9])
             sid = rng.choice([None, 0, 1, 2, 3, 9])
-            frs = gen.fragment(rng, pay, fill, n, sid)
+            frs = gen.fragment(rng, pay, fill, n, sid, chan=rng.choice([b'A', b'A', b'B', b'B', b'', b'1', b'2']))
             d = rng.random()
             if d < 0.25 and len(frs) > 1: del frs[rng.randrange(len(frs))]            # loss
             elif d < 0.4: j = rng.randrange(len(frs)); frs.insert(j, frs[j])           # duplication
@@ -1155,6 +1155,19 @@ def cli_streams(rng, tier):
                                          gen.sentence(b'9', 0, 3, 3, 77)]))
         parts.append(v())
         out.append(b'\n'.join(parts) + b'\n')
+    # torn lines: a sentence (plain or behind a TAG block) cut in two at the TAG block's end, inside the TAG block,
+    # inside a field, in front of the checksum — each piece is a line of its own and is rejected; a tool that glues
+    # pieces to their neighbours shows in the records of the good lines around them
+    for _ in range(scale(tier, 150, 1500)):
+        a, b2, c2 = v(), v(), v()
+        tagged = gen.sentence(gen.armor(gen.message_bits(rng, rng.choice(gen.SUPPORTED)))[0], 0, tag=gen.tag_block(rng))
+        t = rng.choice([tagged, tagged, b2])
+        cuts = [t.find(b'\\', 1) + 1] if t[:1] == b'\\' else []
+        cuts += [rng.randrange(1, len(t)), t.rfind(b'*'), t.rfind(b'*') + 1, t.find(b',') + 1]
+        k = rng.choice([x for x in cuts if 0 < x < len(t)])
+        follower = rng.choice([tagged, c2, gen.sentence(gen.armor(gen.message_bits(rng, 1))[0], 0, tag=b's:AIS1*00')])
+        out.append(b'\n'.join([a, t[:k], follower, t[k:], c2]) + b'\n')
+        out.append(b'\n'.join([a, t[:k], t[k:], follower]) + b'\n')
     # a group that is complete but does not decode (no decoder, too short, an illegal character), then a stray
     # continuation numbered one further with the same id, then ordinary traffic: the failed group is over
     for _ in range(scale(tier, 120, 1200)):
